@@ -5,9 +5,10 @@ from .util import call
 
 ID = 'C12'
 LEAN_MODULE = 'KernProofs.C12'
-EXTRA_MODULES = ['KernProofs.C12Doc']
+EXTRA_MODULES = ['KernProofs.C12Doc', 'KernProofs.C12Iso']
 THEOREMS = ['KM.C12.resets_errors', 'KM.C12.C12_state_independent', 'KM.C12.C12_history', 'KM.C12.C12_order_irrelevant', 'KM.C12.wraps_rejected', 'KM.C12.C12_rejected_cell', 'KM.C12.C12_accepted_cell', 'KM.C12.C12_exported_verbatim',
-            'KM.C12D.errNodes_append', 'KM.C12D.cellStep_err', 'KM.C12D.cellsLoop_err', 'KM.C12D.rowStep_err', 'KM.C12D.runRows_err', 'KM.C12D.C12_errors_are_error_nodes', 'KM.C12D.C12_import_isolates']
+            'KM.C12D.errNodes_append', 'KM.C12D.cellStep_err', 'KM.C12D.cellsLoop_err', 'KM.C12D.rowStep_err', 'KM.C12D.runRows_err', 'KM.C12D.C12_errors_are_error_nodes', 'KM.C12D.C12_import_isolates',
+            'KM.C12I.emit_congr', 'KM.C12I.step_congr', 'KM.C12I.C12_isolation', 'KM.C12I.C12_same_skeleton', 'KM.C12I.C12_same_wf', 'KM.C12I.TT_run_congr']
 FINGERPRINTS = ['kern_spine_importer.KernSpineImporter.import_token', 'error_listener.ErrorListener', 'importer.Importer', 'tokens.ErrorToken.export',
                 'exporter.Exporter.append_row', 'importer_factory.createImporter']
 RULE = ('generated documents (quick 30 / thorough 300) x placements of 1..3 malformed cells of four kinds (unknown characters, wrong order, truncated, valid '
